@@ -231,9 +231,9 @@ func drawNameOf(t *rapid.T, alphabet []runeClass, n int, label string) genName {
 	for i := 0; i < n; i++ {
 		c := rapid.SampledFrom(alphabet).Draw(t, label+"_rc")
 		sb.WriteString(drawRune(t, c))
-		g.Classes = append(g.Classes, c)
 	}
 	g.S = sb.String()
+	g.Classes = classify(g.S) // the classifier is the single source of truth (tables overlap)
 	return g
 }
 
